@@ -31,6 +31,28 @@ class Violation(Exception):
         self.detail = str(detail)[:2000]
 
 
+def library_crash(exc):
+    """An unexpected exception whose innermost frame (among harness and library frames) lies in the
+    library under test is a crash of the library on a valid input: bucket it by (type, module.function).
+    Exceptions raised from harness code (including harness callbacks called by the library) are harness errors."""
+    import inference
+
+    lib = os.path.dirname(os.path.abspath(inference.__file__)) + os.sep
+    last = None
+    tb = exc.__traceback__
+    while tb is not None:
+        fn = os.path.abspath(tb.tb_frame.f_code.co_filename)
+        if fn.startswith(lib):
+            last = ("lib", fn[len(lib):], tb.tb_frame.f_code.co_name, tb.tb_lineno)
+        elif fn.startswith(VERIF_DIR + os.sep):
+            last = ("harness", fn, tb.tb_frame.f_code.co_name, tb.tb_lineno)
+        tb = tb.tb_next
+    if last is None or last[0] != "lib":
+        return None
+    mod = last[1].replace(os.sep, ".").removesuffix(".py")
+    return f"crash:{type(exc).__name__}:{mod}.{last[2]}", f"{type(exc).__name__}: {exc} (at {last[1]}:{last[3]})"
+
+
 class Inconclusive(Exception):
     """The case cannot be decided (stencil did not converge, ill-conditioned, ...)."""
 
@@ -222,7 +244,15 @@ def run_shard(prop_id, sub, tier, seed, shard, n_examples):
             rngctl.reset(case.get("seed", 0) if isinstance(case, dict) else 0)
             try:
                 ctx._in_hyp = True
-                sub.body(case, ctx)
+                try:
+                    sub.body(case, ctx)
+                except (Violation, Inconclusive):
+                    raise
+                except Exception as e:
+                    crash = library_crash(e)
+                    if crash is None:
+                        raise
+                    raise Violation(*crash) from None
             except Violation as v:
                 full = f"{sub.name}:{v.key}"
                 if full in known:
@@ -301,7 +331,15 @@ def run_replay(prop_id, sub, case, tier="quick"):
     ctx.begin(case)
     rngctl.reset(case.get("seed", 0) if isinstance(case, dict) else 0)
     try:
-        sub.body(case, ctx)
+        try:
+            sub.body(case, ctx)
+        except (Violation, Inconclusive):
+            raise
+        except Exception as e:
+            crash = library_crash(e)
+            if crash is None:
+                raise
+            raise Violation(*crash) from None
     except Violation as v:
         return f"{sub.name}:{v.key}", v.detail
     except Inconclusive as e:
